@@ -106,6 +106,9 @@ def keyed_memo_decorators(repo):
     return out
 
 
+_REPO = []
+
+
 def registers_itself(guard_fn, attrs):
     """The guarded function puts its object into a registry named by one of `attrs` for the time of its extent (append/add, removed
     in a finally): a memo keyed by that registry separates what is computed during the extent from what is computed outside."""
@@ -120,7 +123,45 @@ def registers_itself(guard_fn, attrs):
             and c.func.attr in ('append', 'add') and len(c.args) == 1 and unparse(c.args[0]) == 'self']
     takes = [c for c in ast.walk(guard_fn) if isinstance(c, ast.Call) and isinstance(c.func, ast.Attribute) and is_reg(c.func.value)
              and c.func.attr in ('pop', 'remove', 'discard')]
-    return bool(puts) and bool(takes) and all(_in_finally(c, guard_fn) for c in takes)
+    if puts and takes and all(_in_finally(c, guard_fn) for c in takes):
+        return True
+    # ... or through a context manager object the guarded function enters: `with K(self, registry):` where K.__enter__ puts the
+    # object it was given into the registry it was given and K.__exit__ takes it out again (done on every exit)
+    facts = get_facts(_REPO[0]) if _REPO else None
+    if facts is None:
+        return False
+    for w in ast.walk(guard_fn):
+        if not isinstance(w, ast.With):
+            continue
+        for it_ in w.items:
+            c = it_.context_expr
+            if not (isinstance(c, ast.Call) and isinstance(c.func, ast.Name)):
+                continue
+            ci = facts.classes.get(c.func.id)
+            if ci is None or not all(m in ci.methods for m in ('__init__', '__enter__', '__exit__')):
+                continue
+            params = [a.arg for a in ci.methods['__init__'].node.args.args[1:]]
+            field_of = {}     # constructor parameter -> field
+            for st in ast.walk(ci.methods['__init__'].node):
+                if isinstance(st, ast.Assign) and len(st.targets) == 1 and isinstance(st.targets[0], ast.Attribute) \
+                        and unparse(st.targets[0].value) == 'self' and isinstance(st.value, ast.Name) and st.value.id in params:
+                    field_of[st.value.id] = st.targets[0].attr
+            reg_f = obj_f = None
+            for prm, a in zip(params, c.args):
+                if is_reg(a):
+                    reg_f = field_of.get(prm)
+                elif unparse(a) == 'self':
+                    obj_f = field_of.get(prm)
+            if reg_f is None or obj_f is None:
+                continue
+            put = any(isinstance(x, ast.Call) and isinstance(x.func, ast.Attribute) and unparse(x.func.value) == 'self.' + reg_f
+                      and x.func.attr in ('append', 'add') and len(x.args) == 1 and unparse(x.args[0]) == 'self.' + obj_f
+                      for x in ast.walk(ci.methods['__enter__'].node))
+            take = any(isinstance(x, ast.Call) and isinstance(x.func, ast.Attribute) and unparse(x.func.value) == 'self.' + reg_f
+                       and x.func.attr in ('pop', 'remove', 'discard') for x in ast.walk(ci.methods['__exit__'].node))
+            if put and take:
+                return True
+    return False
 
 
 def provisional_sources(repo):
@@ -167,8 +208,46 @@ def provisional_sources(repo):
                                 found_here = True
                     if found_here and fn_ is fi.node:
                         break
+                exit_resets = set()
+                if not (sets and resets):
+                    # the pair may live in a context manager the guarded function enters: `with _Visit(self, node):` (a class of the
+                    # module with __enter__ / __exit__ - what __exit__ does is done on every exit) or a @contextmanager generator
+                    for w in ast.walk(fi.node):
+                        if not isinstance(w, ast.With):
+                            continue
+                        for it_ in w.items:
+                            c = it_.context_expr
+                            if not isinstance(c, ast.Call):
+                                continue
+                            fname = unparse(c.func)
+                            ci2 = facts.classes.get(fname)
+                            bodies = []
+                            if ci2 is not None and '__enter__' in ci2.methods and '__exit__' in ci2.methods:
+                                bodies = [(ci2.methods['__enter__'].node, False), (ci2.methods['__exit__'].node, True)]
+                            else:
+                                h = fi.cls.lookup(fname[5:]) if fname.startswith('self.') else facts.module_funcs.get(fi.rel, {}).get(fname)
+                                if h is not None and any('contextmanager' in d for d in h.decorators):
+                                    bodies = [(h.node, False)]
+                            for fn_, is_exit in bodies:
+                                for n in ast.walk(fn_):
+                                    if isinstance(n, ast.Call) and isinstance(n.func, ast.Attribute) and isinstance(n.func.value, ast.Attribute) \
+                                            and n.func.value.attr == mk:
+                                        if n.func.attr in ('add', 'append'):
+                                            sets.append(n)
+                                            where[id(n)] = fn_
+                                        elif n.func.attr in ('remove', 'discard', 'pop'):
+                                            resets.append(n)
+                                            where[id(n)] = fn_
+                                            if is_exit:
+                                                exit_resets.add(id(n))
+                                    elif isinstance(n, ast.Assign) and len(n.targets) == 1 and isinstance(n.targets[0], ast.Attribute) \
+                                            and n.targets[0].attr == mk and isinstance(n.value, ast.Constant):
+                                        (sets if n.value.value else resets).append(n)
+                                        where[id(n)] = fn_
+                                        if is_exit and not n.value.value:
+                                            exit_resets.add(id(n))
                 if sets and resets:
-                    safe = all(_in_finally(r, where.get(id(r), fi.node)) for r in resets)
+                    safe = all(id(r) in exit_resets or _in_finally(r, where.get(id(r), fi.node)) for r in resets)
                     split = any(where.get(id(x), fi.node) is not fi.node for x in sets + resets)
                     # completeness: no call may be made between the guard test and the first marker-set statement
                     first_set = min(x.lineno for x in sets) if not split else st.lineno
@@ -392,6 +471,7 @@ def rule_provisional_memo(repo, res, rule, only_cycle=None):
             if on_cycle and s['kind'].startswith('keyed memo'):
                 # a table kept per set of extents in progress: what is computed while the guard answers its sentinel is stored
                 # under another key than what is computed outside - provided the guard registers itself where the key is taken from
+                _REPO[:] = [repo]
                 ok = registers_itself(g.node, s['key_attrs'])
                 res.check(rule, key, ok, s['fi'].rel, s['fi'].node.lineno,
                           '%s (%s) is filled while %s may be in progress and calls back into it (%s); its table is keyed by %s, but %s does '
